@@ -1,9 +1,16 @@
-# Check framework: obligations, solver verdicts, parallel execution, evidence, exit codes.
+# Check framework: obligations -> deferred SMT queries -> parallel solving -> verdicts.
+#
+# Phase 1 (one process per obligation): symbolic execution of the MIR; every claim on every path becomes a
+#   Query (SMT-LIB2 text: sliced path condition + negated claims behind selector literals).
+# Phase 2 (pool over all queries of the check): z3 decides each query; unknown answers are retried with
+#   other configurations; in the thorough tier a sample of query classes is re-decided by cvc5.
+# Phase 3: verdicts per obligation, vacuity (witness) accounting.
 import os
 import sys
 import json
 import time
 import traceback
+import subprocess
 import multiprocessing as mp
 import z3
 
@@ -13,14 +20,8 @@ from . import engine
 
 VERIF = os.path.dirname(os.path.dirname(os.path.abspath(__file__)))
 
-TIER_QUERY_MS = {'quick': 30000, 'thorough': 600000}
-
-
-class Verdict:
-    HOLDS = 'holds'
-    VIOLATED = 'violated'
-    UNKNOWN = 'unknown'
-    GAP = 'gap'
+TIER_QUERY_MS = {'quick': 30000, 'thorough': 300000}
+PATH_FEAS_MS = 4000
 
 
 class Ob:
@@ -40,21 +41,81 @@ class Ob:
         self.forks = 0
         self.functions = set()
         self.summaries = set()
-        self.witnesses = []      # reachability witnesses (label, model excerpt)
+        self.witnesses = []
         self.missing_witness = []
-        self.violations = []     # dicts: {claim, model, site}
+        self.expect = []         # (label, [substrings]) evaluated after solving
+        self.violations = []
         self.unknowns = []
         self.gaps = []
         self.notes = []
         self.samples = []
         self.wall = 0.0
         self.bounds = {}
+        self.queries = []        # deferred queries (dicts)
 
     def to_dict(self):
         d = dict(self.__dict__)
         d['functions'] = sorted(self.functions)
         d['summaries'] = sorted(self.summaries)
         return d
+
+
+# ---------------------------------------------------------------------- slicing helpers
+_VARS = {}
+
+
+def vars_of(e):
+    """frozenset of uninterpreted constant names in e (memoised on ast id)."""
+    if isinstance(e, (bool, int)):
+        return frozenset()
+    eid = e.get_id()
+    r = _VARS.get(eid)
+    if r is not None:
+        return r[1]
+    out = set()
+    stack = [e]
+    seen = set()
+    while stack:
+        x = stack.pop()
+        xid = x.get_id()
+        if xid in seen:
+            continue
+        seen.add(xid)
+        c = _VARS.get(xid)
+        if c is not None:
+            out |= c[1]
+            continue
+        if z3.is_app(x):
+            if x.num_args() == 0:
+                if x.decl().kind() == z3.Z3_OP_UNINTERPRETED:
+                    out.add(x.decl().name())
+            else:
+                stack.extend(x.children())
+    r = frozenset(out)
+    _VARS[eid] = (e, r)       # keep the term alive: z3 reuses ast ids of collected terms
+    return r
+
+
+def slice_pc(pc, goal_vars):
+    """constraints of pc transitively connected to goal_vars."""
+    items = [(c, vars_of(c)) for c in pc if c is not True]
+    keep = []
+    cur = set(goal_vars)
+    rest = items
+    changed = True
+    while changed:
+        changed = False
+        nxt = []
+        for c, vs in rest:
+            if vs & cur or not vs:
+                keep.append(c)
+                if not vs <= cur:
+                    cur |= vs
+                    changed = True
+            else:
+                nxt.append((c, vs))
+        rest = nxt
+    return keep
 
 
 class Ctx:
@@ -65,6 +126,9 @@ class Ctx:
         self.seed = seed
         self.query_ms = TIER_QUERY_MS[tier]
         self.interps = []
+        self.path_status = {}
+        self.path_model = {}
+        self.nq = 0
 
     def interp(self, feas_timeout_ms=1500):
         I = engine.interp_from_parsed(self.parsed, feas_timeout_ms)
@@ -82,107 +146,217 @@ class Ctx:
         self.ob.summaries |= s.summaries
         I.stats = type(s)()
 
-    # ------------------------------------------------------------------ solver
-    def solve(self, st, extra, timeout_ms=None):
-        """check pc /\\ extra.  returns ('sat', model) | ('unsat', None) | ('unknown', None)"""
+    # ------------------------------------------------------------------ path feasibility (makes slicing exact)
+    def path_feasible(self, st):
+        key = id(st)
+        r = self.path_status.get(key)
+        if r is not None and r[1] == len(st.pc):
+            return r[0]
         s = z3.Solver()
-        s.set('timeout', timeout_ms or self.query_ms)
-        s.set('random_seed', self.seed & 0x7fffffff)
+        s.set('timeout', PATH_FEAS_MS)
         for c in st.pc:
-            s.add(c)
-        if isinstance(extra, (list, tuple)):
-            for e in extra:
-                if e is False:
-                    return 'unsat', None
-                if e is not True:
-                    s.add(e)
-        elif extra is False:
-            return 'unsat', None
-        elif extra is not True:
-            s.add(extra)
+            if c is not True:
+                s.add(c)
         t0 = time.time()
-        r = s.check()
+        res = s.check()
         self.ob.solver_s += time.time() - t0
-        if r == z3.sat:
-            self.ob.sat += 1
-            return 'sat', s.model()
-        if r == z3.unsat:
-            self.ob.unsat += 1
-            return 'unsat', None
-        self.ob.unknown += 1
-        return 'unknown', None
+        out = 'sat' if res == z3.sat else ('unsat' if res == z3.unsat else 'unknown')
+        self.path_status[key] = (out, len(st.pc))
+        self.path_model[key] = s.model() if res == z3.sat else None
+        return out
 
-    def require(self, st, prop, claim, site='', model_vars=None, assume=()):
-        """obligation: on this path `prop` must hold (pc /\\ assume /\\ not prop unsat)."""
-        if prop is True:
-            self.ob.unsat += 0
-            return True
-        neg = z3.Not(prop) if prop is not False else True
-        r, m = self.solve(st, list(assume) + [neg])
-        if r == 'unsat':
-            return True
-        if r == 'sat':
-            self.ob.violations.append({'claim': claim, 'site': site, 'model': model_excerpt(m, model_vars)})
-            return False
-        self.ob.unknowns.append({'claim': claim, 'site': site})
-        return None
-
-    def infeasible(self, st, claim, site='', model_vars=None, assume=()):
-        """obligation: this path must not be reachable (under assume)."""
-        r, m = self.solve(st, list(assume))
-        if r == 'unsat':
-            return True
-        if r == 'sat':
-            self.ob.violations.append({'claim': claim, 'site': site, 'model': model_excerpt(m, model_vars)})
-            return False
-        self.ob.unknowns.append({'claim': claim, 'site': site})
-        return None
-
-    def witness(self, label, st=None, cond=True, model_vars=None, found=None):
-        """vacuity guard: the region `cond` must be reachable on some path."""
-        if found is not None:
-            if found:
-                self.ob.witnesses.append({'label': label})
+    # ------------------------------------------------------------------ deferred queries
+    def _emit(self, st, kind, claims, assume, model_vars, lemmas=True):
+        """claims: list of (formula-to-refute-negation-of | None, claim text, key).  kind: require|infeasible|witness"""
+        pf = self.path_feasible(st)
+        if pf == 'unsat':
+            return
+        assume = [a for a in assume if a is not True]
+        if any(a is False for a in assume):
+            if kind == 'witness':
+                for _, claim, key in claims:
+                    self.ob.queries.append({'kind': 'witness', 'const': 'unsat', 'claims': [(claim, key)]})
+            return
+        goal = []
+        sels = []
+        for i, (f, claim, key) in enumerate(claims):
+            sel = z3.Bool('sel!%d' % i)
+            if kind == 'require':
+                if f is True:
+                    continue
+                body = z3.Not(f) if f is not False else z3.BoolVal(True)
+            elif kind == 'infeasible':
+                body = z3.BoolVal(True)
+            else:   # witness: f is the region that must be reachable
+                body = f if not isinstance(f, bool) else z3.BoolVal(f)
+            goal.append(z3.Implies(sel, body))
+            sels.append(('sel!%d' % i, claim, key))
+        if not sels:
+            return
+        mvdefs = []
+        mvnames = {}
+        for label, v in (model_vars or {}).items():
+            if isinstance(v, (int, bool)):
+                mvnames[label] = ('const', v)
+            elif z3.is_const(v) and v.decl().kind() == z3.Z3_OP_UNINTERPRETED:
+                mvnames[label] = ('var', v.decl().name())
             else:
-                self.ob.missing_witness.append(label)
-            return found
-        r, m = self.solve(st, cond, timeout_ms=min(self.query_ms, 20000))
-        if r == 'sat':
-            self.ob.witnesses.append({'label': label, 'model': model_excerpt(m, model_vars)})
-            return True
-        return False
+                nm = 'mv!%s' % label
+                mvdefs.append((z3.Int(nm) if z3.is_int(v) else z3.Bool(nm)) == v)
+                mvnames[label] = ('var', nm)
+        gv = set()
+        for g in goal + assume:
+            gv |= vars_of(g)
+        pc = [c for c in st.pc if c is not True]
+        if pf == 'sat':
+            kept = slice_pc(pc, gv)
+        else:
+            kept = pc
+        extra = []
+        if lemmas:
+            extra = div_lemmas(st, set().union(*[vars_of(c) for c in kept + goal + assume]) if (kept or goal) else set())
+        # model variables should not enlarge the slice: define them only when their variables are already in it
+        allv = set()
+        for c in kept + goal + assume:
+            allv |= vars_of(c)
+        mv_keep = [d for d in mvdefs if vars_of(d.arg(1)) <= allv]
+        s = z3.Solver()
+        for c in kept + assume + extra + goal + mv_keep:
+            s.add(c)
+        # variables outside the slice take their values from the model of the whole path condition
+        base = {}
+        pm = self.path_model.get(id(st))
+        if pf == 'sat' and pm is not None:
+            for label, v in (model_vars or {}).items():
+                if isinstance(v, (int, bool)):
+                    continue
+                if not (vars_of(v) <= allv):
+                    try:
+                        base[label] = str(pm.eval(v, model_completion=True))
+                    except Exception:   # noqa
+                        pass
+        self.nq += 1
+        self.ob.queries.append({'kind': kind, 'text': s.to_smt2(), 'sels': sels, 'mv': mvnames, 'base': base,
+                                'sliced': pf == 'sat', 'size': len(kept), 'full': len(pc)})
+
+    def require(self, st, prop, claim, key='', model_vars=None, assume=()):
+        self._emit(st, 'require', [(prop, claim, key)], list(assume), model_vars)
+
+    def require_all(self, st, claims, model_vars=None, assume=()):
+        """claims: [(prop, claim text, key)] decided together (one query, split only when not all hold)."""
+        self._emit(st, 'require', list(claims), list(assume), model_vars)
+
+    def infeasible(self, st, claim, key='', model_vars=None, assume=()):
+        self._emit(st, 'infeasible', [(None, claim, key)], list(assume), model_vars)
+
+    def witness(self, label, st, cond=True, model_vars=None):
+        conds = cond if isinstance(cond, (list, tuple)) else [cond]
+        f = z3.And(*[c for c in conds if c is not True]) if any(c is not True for c in conds) else True
+        if any(c is False for c in conds):
+            return
+        self._emit(st, 'witness', [(f, label, label)], [], model_vars, lemmas=False)
+
+    def witness_found(self, label):
+        self.ob.witnesses.append({'label': label})
+
+    def expect_witness(self, label, *substrings):
+        """vacuity guard: after solving, some witness whose label contains all substrings must be sat."""
+        self.ob.expect.append((label, list(substrings)))
 
     def need_witness(self, label, ok):
         if not ok:
             self.ob.missing_witness.append(label)
+
+    def violation(self, claim, key, model=None):
+        self.ob.violations.append({'claim': claim, 'site': key, 'key': key, 'model': model or {}})
 
     def sample(self, s):
         if len(self.ob.samples) < 6:
             self.ob.samples.append(s)
 
 
-def model_excerpt(m, model_vars=None, limit=60):
-    if m is None:
-        return {}
-    out = {}
-    if model_vars:
-        for name, v in model_vars.items():
-            try:
-                if isinstance(v, (int, bool)):
-                    out[name] = v
-                else:
-                    out[name] = str(m.eval(v, model_completion=True))
-            except Exception:   # noqa
-                pass
-        return out
-    for d in m.decls()[:limit]:
-        n = d.name()
-        if '!' in n and not n.startswith(('k!',)):
-            # fresh internal variable: keep only a few
-            if len(out) > limit:
-                continue
-        out[n] = str(m[d])
+def div_lemmas(st, relevant_vars):
+    """valid consequences of the division lemmas that help the nonlinear solver:
+    monotonicity of floor division for pairs of divisions with the same divisor."""
+    out = []
+    divs = [d for d in st.ghost.get('divs', ()) if (vars_of(d[2]) & relevant_vars)]
+    for i in range(len(divs)):
+        x1, y1, q1, r1 = divs[i]
+        for j in range(i + 1, len(divs)):
+            x2, y2, q2, r2 = divs[j]
+            same = (y1 == y2) if (isinstance(y1, int) and isinstance(y2, int)) else \
+                (not isinstance(y1, int) and not isinstance(y2, int) and y1.eq(y2))
+            if same:
+                out.append(z3.Implies(x1 <= x2, q1 <= q2))
+                out.append(z3.Implies(x2 <= x1, q2 <= q1))
     return out
+
+
+# ---------------------------------------------------------------------- phase 2: solving
+def solve_query(args):
+    qi, q, timeout_ms, seed = args
+    t0 = time.time()
+    res = {'qi': qi, 'claims': []}
+    if 'const' in q:
+        res['claims'] = [{'sel': None, 'claim': c, 'key': k, 'status': q['const'], 'model': {}} for c, k in q['claims']]
+        res['t'] = 0.0
+        return res
+    try:
+        s = z3.Solver()
+        s.set('timeout', timeout_ms)
+        s.set('random_seed', seed & 0x7fffffff)
+        s.from_string(q['text'])
+        sels = [z3.Bool(n) for n, _, _ in q['sels']]
+        status_all = None
+        if len(sels) > 1 and q['kind'] != 'witness':
+            s.push()
+            s.add(z3.Or(*sels))
+            r = s.check()
+            s.pop()
+            if r == z3.unsat:
+                status_all = 'unsat'
+        for (n, claim, key), sv in zip(q['sels'], sels):
+            if status_all == 'unsat':
+                res['claims'].append({'claim': claim, 'key': key, 'status': 'unsat', 'model': {}})
+                continue
+            s.push()
+            s.add(sv)
+            r = s.check()
+            m = {}
+            if r == z3.sat:
+                mod = s.model()
+                byname = {d.name(): mod[d] for d in mod.decls()}
+                for label, (k, v) in q['mv'].items():
+                    if k == 'const':
+                        m[label] = v
+                    elif v in byname:
+                        m[label] = str(byname[v])
+                    elif label in q.get('base', {}):
+                        m[label] = q['base'][label]
+                if not q['mv']:
+                    for nme, val in list(byname.items())[:60]:
+                        if '!' not in nme:
+                            m[nme] = str(val)
+            s.pop()
+            res['claims'].append({'claim': claim, 'key': key,
+                                  'status': 'sat' if r == z3.sat else ('unsat' if r == z3.unsat else 'unknown'), 'model': m})
+    except Exception as e:   # noqa
+        res['error'] = '%r %s' % (e, traceback.format_exc()[-600:])
+    res['t'] = time.time() - t0
+    return res
+
+
+def cvc5_check(text, timeout_s=60):
+    """re-decide a query text (all selectors true -> any claim refutable?) with cvc5. returns sat/unsat/unknown/error"""
+    try:
+        p = subprocess.run(['cvc5', '--lang', 'smt2', '--tlimit=%d' % (timeout_s * 1000)], input=text, text=True,
+                           stdout=subprocess.PIPE, stderr=subprocess.PIPE, timeout=timeout_s + 10)
+    except Exception as e:   # noqa
+        return 'error'
+    out = p.stdout.strip().split('\n')[0] if p.stdout.strip() else ''
+    if '(error' in p.stdout or '(error' in p.stderr:
+        return 'error'
+    return out if out in ('sat', 'unsat', 'unknown') else 'unknown'
 
 
 # ---------------------------------------------------------------------- running
@@ -211,7 +385,6 @@ def _worker(args):
 
 
 def run_check(prop_id, modname, tier, seed, jobs=None, only=None):
-    """returns (exit_code, evidence dict)"""
     global _PARSED
     t0 = time.time()
     sys.path.insert(0, VERIF)
@@ -223,16 +396,110 @@ def run_check(prop_id, modname, tier, seed, jobs=None, only=None):
     obs = [n for n, _ in mod.OBLIGATIONS if (only is None or n in only)]
     if hasattr(mod, 'tier_filter'):
         obs = [n for n in obs if mod.tier_filter(n, tier)]
-    jobs = jobs or min(16, max(1, len(obs)))
+    njobs = jobs or 16
     tasks = [(modname, n, tier, seed) for n in obs]
     results = []
-    if jobs == 1 or len(tasks) == 1:
+    ctxm = mp.get_context('fork')
+    t1 = time.time()
+    if njobs == 1 or len(tasks) == 1:
         for t in tasks:
             results.append(_worker(t))
     else:
-        ctxm = mp.get_context('fork')
-        with ctxm.Pool(jobs) as pool:
+        with ctxm.Pool(min(njobs, len(tasks))) as pool:
             for r in pool.imap_unordered(_worker, tasks):
                 results.append(r)
     results.sort(key=lambda r: obs.index(r['name']))
-    return results, time.time() - t0, work
+    sym_s = time.time() - t1
+    # ---- phase 2
+    allq = []
+    for ri, r in enumerate(results):
+        for qi, q in enumerate(r['queries']):
+            allq.append(((ri, qi), q))
+    timeout = TIER_QUERY_MS[tier]
+    # first pass with a short cap so easy queries finish quickly; hard ones are retried with the full cap
+    answers = {}
+    t2 = time.time()
+
+    def run_pass(items, to_ms, sd):
+        out = {}
+        if not items:
+            return out
+        args = [(k, q, to_ms, sd) for k, q in items]
+        if njobs == 1:
+            for a in args:
+                r = solve_query(a)
+                out[r['qi']] = r
+        else:
+            with ctxm.Pool(njobs) as pool:
+                for r in pool.imap_unordered(solve_query, args, chunksize=1):
+                    out[r['qi']] = r
+        return out
+
+    first_ms = min(timeout, 8000)
+    answers.update(run_pass(allq, first_ms, seed))
+
+    def unresolved():
+        out = []
+        for k, q in allq:
+            a = answers.get(k)
+            if a is None or 'error' in a or any(c['status'] == 'unknown' for c in a['claims']):
+                out.append((k, q))
+        return out
+    rest = unresolved()
+    if rest and timeout > first_ms:
+        answers.update(run_pass(rest, timeout, seed + 1))
+    solve_s = time.time() - t2
+    # ---- thorough: cross-check a sample of query texts with cvc5
+    cross = {'checked': 0, 'agree': 0, 'cvc5_unknown': 0, 'disagree': 0}
+    if tier == 'thorough':
+        sample = [(k, q) for k, q in allq if 'text' in q and q['kind'] != 'witness'][::max(1, len(allq) // 40)][:40]
+        for k, q in sample:
+            a = answers.get(k)
+            if a is None or 'error' in a:
+                continue
+            # all selectors asserted: is any claim refutable?
+            text = q['text'].replace('(check-sat)', '(assert (or %s))\n(check-sat)' % ' '.join('|%s|' % n for n, _, _ in q['sels']))
+            mine = 'sat' if any(c['status'] == 'sat' for c in a['claims']) else \
+                ('unsat' if all(c['status'] == 'unsat' for c in a['claims']) else 'unknown')
+            other = cvc5_check(text, 30)
+            cross['checked'] += 1
+            if other in ('unknown', 'error') or mine == 'unknown':
+                cross['cvc5_unknown'] += 1
+            elif other == mine:
+                cross['agree'] += 1
+            else:
+                cross['disagree'] += 1
+    # ---- phase 3
+    for ri, r in enumerate(results):
+        wit_sat = []
+        for qi, q in enumerate(r['queries']):
+            a = answers.get((ri, qi))
+            if a is None or 'error' in a:
+                r['gaps'].append('solver process failed on a query: %s' % (a or {}).get('error', 'no answer'))
+                continue
+            r['solver_s'] += a.get('t', 0.0)
+            for c in a['claims']:
+                if c['status'] == 'sat':
+                    r['sat'] += 1
+                elif c['status'] == 'unsat':
+                    r['unsat'] += 1
+                else:
+                    r['unknown'] += 1
+                if q['kind'] == 'witness':
+                    if c['status'] == 'sat':
+                        wit_sat.append(c['claim'])
+                        if len(r['witnesses']) < 12:
+                            r['witnesses'].append({'label': c['claim'], 'model': c['model']})
+                    continue
+                if c['status'] == 'sat':
+                    r['violations'].append({'claim': c['claim'], 'site': c['key'], 'key': c['key'], 'model': c['model']})
+                elif c['status'] == 'unknown':
+                    r['unknowns'].append({'claim': c['claim'], 'site': c['key']})
+        labels = wit_sat + [w['label'] for w in r['witnesses']]
+        for label, subs in r['expect']:
+            if not any(all(s in l for s in subs) for l in labels):
+                r['missing_witness'].append(label)
+        r['nqueries'] = len(r['queries'])
+        del r['queries']
+    info = {'symbolic_s': round(sym_s, 1), 'solve_s': round(solve_s, 1), 'queries': len(allq), 'cross_check': cross}
+    return results, time.time() - t0, work, info
